@@ -180,7 +180,10 @@ func SplitBraces(word *Word) bool {
 		}
 		if last == 0 {
 			addLit(lit)
-		} else {
+		} else if last < len(lit.Value) {
+			// Don't add an empty literal after a trailing brace character,
+			// as otherwise "{,x}" would expand to an empty word made up of
+			// an empty literal, rather than a word without any parts.
 			left := *lit
 			left.Value = left.Value[last:]
 			addLit(&left)
